@@ -113,12 +113,14 @@ func fsckCommand(cmd *cobra.Command, args []string) {
 		if srcFile == os.DevNull {
 			continue
 		}
+		tools.VerifPoint("fsck.move.pre")
 		if err := os.Rename(srcFile, badFile); err != nil {
 			if os.IsNotExist(err) {
 				continue
 			}
 			ExitWithError(err)
 		}
+		tools.VerifPoint("fsck.move.post")
 	}
 	os.Exit(1)
 }
